@@ -69,11 +69,12 @@ def unexpected(env, obl, e, variant="", mode=""):
 def _prim(env, kind):
     B = env.B
     S = lambda f: B.struct.Struct(f)
-    if kind == "uvarint16":   # quick-tier stand-in under short reads: same code, at most 3 bytes
-        x = env.int("x", 0, 2**16 - 1)
+    if kind.startswith("uvarint") and kind != "uvarint":   # uvarint16/32: same code on a narrower value range (fewer length classes)
+        x = env.int("x", 0, 2**int(kind[7:]) - 1)
         return x, (lambda w: w.write_unsigned_varint(x)), env.ref.uvarint(x, 64), (lambda r: r.read_unsigned_varint()), EQ
-    if kind == "svarint16":
-        x = env.int("x", -2**15, 2**15 - 1)
+    if kind.startswith("svarint") and kind != "svarint":
+        b = int(kind[7:])
+        x = env.int("x", -2**(b - 1), 2**(b - 1) - 1)
         return x, (lambda w: w.write_signed_varint(x)), env.ref.svarint(x), (lambda r: r.read_signed_varint()), EQ
     if kind == "uvarint":
         x = env.int("x", 0, 2**64 - 1)
@@ -701,8 +702,6 @@ def h_trunc(env, ts, N, mode, maxlen=2):
     for i, t in enumerate(ts):
         if t[0] == "prim":
             # primitives of the coded stream itself (read_unsigned_varint, read(struct), read_byte ...)
-            class _E:  # per-value input names
-                pass
             pe = _Prefixed(env, "v%d." % i)
             vals.append(_prim(pe, t[1]))
             sers.append(None)
@@ -745,7 +744,7 @@ def h_trunc(env, ts, N, mode, maxlen=2):
             env.check("trunc.delivered==written" + sfx, veq(env, t, x, rv), "py:trunc:%s:delivered-value-differs" % t[0], "a value delivered before the error differs from the written one")
 
     if not ok:
-        return on_exc(e, 0 if False else total)  # the skip itself hit the cut (only when cut == 0 region); any position
+        return on_exc(e, total)   # the initial skip of the p junk bytes already hit the cut
     for t, ser, v, us in zip(ts, sers, vals, units):
         if t[0] == "stream":
             it = ser.read(r)
